@@ -20,6 +20,7 @@ type verifC10Req struct {
 	Path       string      `json:"path"`
 	Extra      [][2]string `json:"extra"`       // the client's own other cookies
 	SetCookies []string    `json:"set_cookies"` // what the backend answers with
+	Dup        int         `json:"dup"`         // the session cookie is sent more than once: 1 twice, 2 followed by a stale value, 3 four times (valid, stale, valid, valid)
 }
 
 type verifC10Obs struct {
@@ -42,6 +43,18 @@ func verifRunHistory(h http.Handler, cookieName string, reqs []verifC10Req, cur 
 		switch {
 		case rq.Use >= 0:
 			req.AddCookie(&http.Cookie{Name: cookieName, Value: issued[rq.Use]})
+			// the same cookie name more than once (browsers do this for cookies of different paths/domains)
+			switch rq.Dup {
+			case 1:
+				req.AddCookie(&http.Cookie{Name: cookieName, Value: issued[rq.Use]})
+			case 2:
+				req.AddCookie(&http.Cookie{Name: cookieName, Value: "stale-session-id"})
+			case 3:
+				req.AddCookie(&http.Cookie{Name: cookieName, Value: issued[rq.Use]})
+				req.AddCookie(&http.Cookie{Name: cookieName, Value: "stale-session-id"})
+				req.AddCookie(&http.Cookie{Name: cookieName, Value: issued[rq.Use]})
+				req.AddCookie(&http.Cookie{Name: cookieName, Value: issued[rq.Use]})
+			}
 		case rq.Use == -2:
 			req.AddCookie(&http.Cookie{Name: cookieName, Value: "made-up-session-id"})
 		}
@@ -121,6 +134,9 @@ func TestVerifC10(t *testing.T) {
 			}
 			if rq.Use == -1 {
 				issuedAt = append(issuedAt, i)
+			}
+			if rq.Use >= 0 && rng.intn(5) == 0 {
+				rq.Dup = 1 + rng.intn(3)
 			}
 			for k := rng.intn(3); k > 0; k-- {
 				rq.Extra = append(rq.Extra, [2]string{[]string{"own1", "own2", "k1"}[rng.intn(3)], fmt.Sprintf("c%d", rng.intn(5))})
